@@ -1,10 +1,185 @@
 (* C18 — a model inferred from headers is the explicit model the headers denote.
-   Only property theorems here, each closed by [exact] and followed by Print Assumptions. *)
+   Only property theorems here, each closed by [exact] and followed by Print Assumptions.
+
+   Vocabulary (coq/theories/Row/InferTy.v, Row/Infer.v):
+   [schema]/[sty]   the family: plain columns f | f:T | f=v | f:T=v (T in str int float bool list
+                    List List[..], whitespace padding around the separators), index-spread lists
+                    f.1 f.2 .., sub-records f.a f.b .., nested to ANY depth and of any size;
+   [headers_of]     the annotated header row a schema is written as;
+   [denote]         the explicit model (types, field order, defaults) the schema denotes;
+   [infer]          the Gallina mirror of model_inference.model_from_headers_rec for the tree of this
+                    run (tied to the code by differential execution in harness/c18.py);
+                    [infer = infer_at inf_nested_by_field_name], see 6;
+   [wf_schema]      names are non-empty-of-separators, stripped, not integer-like and distinct per
+                    level; a list is spread over leaves only or over nested entries only; every
+                    spread / sub-record has an entry; a written default is a literal of its type,
+                    stripped, and contains no header separator (nor ':' in an untyped column). *)
 From Coq Require Import List NArith ZArith Bool.
-From RPFT Require Import Base.Sexp Base.PyStr Base.Result Gen.Tables Row.InferTy Row.Infer Row.InferFacts.
+From RPFT Require Import Base.Sexp Base.PyStr Base.Result Gen.Tables Row.InferTy Row.Infer
+  Row.InferFacts Row.InferMainFacts Row.InferOrderFacts Row.InferCorollaries.
 Import ListNotations.
 
 (* the regenerated separators and type-name tables satisfy what the proofs need *)
 Theorem C18_tables_ok : infer_tables_ok = true.
 Proof. exact infer_tables_ok_true. Qed.
 Print Assumptions C18_tables_ok.
+
+(* 1. the headline: for EVERY well-formed schema, of any nesting depth and size, the model
+      inferred from the rendered headers is exactly the denoted model (types, field order,
+      defaults; equality of [model]s, no normalisation) *)
+Theorem C18_infer_headers_of : forall sc,
+  wf_schema sc = true -> infer (headers_of sc) = Ok (denote sc).
+Proof. exact infer_headers_of. Qed.
+Print Assumptions C18_infer_headers_of.
+
+Example C18_infer_headers_of_nonvacuous : wf_schema ex_deep = true.
+Proof. exact ex_deep_wf. Qed.
+Print Assumptions C18_infer_headers_of_nonvacuous.
+
+Example C18_infer_headers_of_nonvacuous_headers :
+  length (headers_of ex_deep) = 14%nat
+  /\ In [32; 101; 32; 9; 61; 32; 120; 61; 49; 32; 32]%N (headers_of ex_deep).   (* " e \t= x=1  " *)
+Proof. exact ex_deep_headers. Qed.
+Print Assumptions C18_infer_headers_of_nonvacuous_headers.
+
+Example C18_infer_headers_of_nonvacuous_depth9 : wf_schema [(nm 97, ex_chain 4)] = true.
+Proof. exact ex_chain_wf. Qed.
+Print Assumptions C18_infer_headers_of_nonvacuous_depth9.
+
+(* 2. the fuel of the mirror suffices on ANY header list (rendered or not): the distinct
+      out-of-fuel result is unreachable, so [infer] is the recursion of the code *)
+Theorem C18_infer_never_out_of_fuel : forall hs, infer hs <> Err EOutOfFuel.
+Proof. exact infer_never_out_of_fuel. Qed.
+Print Assumptions C18_infer_never_out_of_fuel.
+
+(* and any larger fuel gives the same answer *)
+Theorem C18_infer_any_fuel : forall hs fuel, (max_len hs < fuel)%nat -> infer hs = infer_rec fuel hs.
+Proof. exact (infer_any_fuel inf_nested_by_field_name). Qed.
+Print Assumptions C18_infer_any_fuel.
+
+(* 3. order of the columns, for ANY header list.  A column is "nested" when the code finds the
+      header separator in it ([is_nested inf_nested_by_field_name]: in the whole header on the tree
+      with the defect, in the field name on the repaired tree).  The inferred model (or error) is a
+      function of (a) the plain columns in order, (b) the prefixes of the nested columns in order of
+      first appearance and (c) the sub-headers of each prefix in order: any rearrangement of the
+      header row that keeps these three gives the SAME model. *)
+Theorem C18_infer_partition_invariant : forall hs1 hs2,
+  plain_of inf_nested_by_field_name hs1 = plain_of inf_nested_by_field_name hs2 ->
+  prefixes inf_nested_by_field_name hs1 = prefixes inf_nested_by_field_name hs2 ->
+  (forall k, subs_of inf_nested_by_field_name k hs1 = subs_of inf_nested_by_field_name k hs2) ->
+  infer hs1 = infer hs2.
+Proof. exact (infer_partition_invariant inf_nested_by_field_name). Qed.
+Print Assumptions C18_infer_partition_invariant.
+
+(* in particular moving the plain columns to the front (both groups in their order) *)
+Theorem C18_infer_partition : forall hs, infer (stable_partition inf_nested_by_field_name hs) = infer hs.
+Proof. exact (infer_partition inf_nested_by_field_name). Qed.
+Print Assumptions C18_infer_partition.
+
+(* what is NOT invariant is the order of the fields: an inferred class lists the names of the
+   plain columns in order of first occurrence, then the prefixes of the nested columns in order of
+   first occurrence (a prefix that is also a plain name keeps the plain column's position) *)
+Theorem C18_infer_field_order : forall hs fields d,
+  infer hs = Ok (TRec fields, d) ->
+  map fst fields = first_occ (map get_field_name (plain_of inf_nested_by_field_name hs)
+                              ++ map fst (pairs_of inf_nested_by_field_name hs)).
+Proof. exact (infer_field_order inf_nested_by_field_name). Qed.
+Print Assumptions C18_infer_field_order.
+
+Example C18_infer_order_nonvacuous : forall bn,
+  stable_partition bn ex_mixed <> ex_mixed /\ prefixes bn ex_mixed = [[98]; [99]]%N
+  /\ subs_of bn [98]%N ex_mixed = [[120]; [121]]%N /\ exists m, infer_at bn ex_mixed = Ok m.
+Proof. exact ex_mixed_moves. Qed.
+Print Assumptions C18_infer_order_nonvacuous.
+
+Example C18_infer_field_order_nonvacuous : forall bn, exists fields d, infer_at bn ex_mixed = Ok (TRec fields, d).
+Proof. exact ex_mixed_class. Qed.
+Print Assumptions C18_infer_field_order_nonvacuous.
+
+(* hypothesis (b) cannot be dropped, not even "up to the order of the fields": 1.a 2.b:int and
+   2.b:int 1.a have the same plain columns and the same sub-headers under every prefix, but an
+   inferred list takes the type of its LAST integer-keyed entry *)
+Example C18_prefix_order_matters : forall bn,
+  plain_of bn ex_swap1 = plain_of bn ex_swap2
+  /\ (forall k, subs_of bn k ex_swap1 = subs_of bn k ex_swap2)
+  /\ infer_at bn ex_swap1 = Ok (TList (TRec [([98]%N, (TInt, VInt 0))]), VList [VRec [([97]%N, VStr [])]; VRec [([98]%N, VInt 0)]])
+  /\ infer_at bn ex_swap2 = Ok (TList (TRec [([97]%N, (TStr, VStr []))]), VList [VRec [([97]%N, VStr [])]; VRec [([98]%N, VInt 0)]]).
+Proof. exact prefix_order_matters. Qed.
+Print Assumptions C18_prefix_order_matters.
+
+(* 4. "every row then parses to the same nested data that the hand-written model would give":
+      (1) is an equality of models, so this holds for ANY row parser whatsoever (any function of
+      the model and the row).  The Gallina RowParser of Row/RowParse.v works over the universe of
+      Row/Ty.v (no bare typing.List, float defaults as repr text), not over [model]; no embedding
+      of the universes is claimed here — this clause is additionally decided on the
+      implementation by harness/c18.py (row.dict() under the inferred vs a hand-built model). *)
+Theorem C18_inferred_parses_same :
+  forall (R Row : Type) (parse_row : model -> Row -> R) sc row,
+  wf_schema sc = true ->
+  rmap (fun m => parse_row m row) (infer (headers_of sc)) = Ok (parse_row (denote sc) row).
+Proof. exact inferred_parses_same. Qed.
+Print Assumptions C18_inferred_parses_same.
+
+(* 5. "the inferred structure does not depend on cell contents": the model of a data sheet
+      without a data_model is computed from the header row alone.  This is true BY TYPE of the
+      mirror ([sheet_model t] = model_from_headers (dt_headers t), as in
+      contentindexparser._get_new_data_sheet); that the code has no other input (no hidden state,
+      no look at the rows) is what the harness checks through ContentIndexParser. *)
+Theorem C18_content_independent : forall t1 t2,
+  dt_headers t1 = dt_headers t2 -> sheet_model t1 = sheet_model t2.
+Proof. exact content_independent. Qed.
+Print Assumptions C18_content_independent.
+
+Theorem C18_sheet_model_of_schema : forall sc rows,
+  wf_schema sc = true -> sheet_model (mk_table (headers_of sc) rows) = Ok (fst (denote sc)).
+Proof. exact sheet_model_of_schema. Qed.
+Print Assumptions C18_sheet_model_of_schema.
+
+(* 6. the default clause at FULL strength: [wf_schema_full] drops the restriction that a written
+      default has no header separator (x:float=1.5, site=www.example.org).  Decided for the code
+      of this run through the regenerated constant [inf_nested_by_field_name] (probed by the
+      translator): the headline HOLDS over the full family when the code looks for the header
+      separator in the field name only (the repaired tree), and is REFUTED by x:float=1.5 when it
+      looks in the whole header (finding default-contains-dot). *)
+Theorem C18_dot_default_decided :
+  if inf_nested_by_field_name
+  then forall sc, wf_schema_full sc = true -> infer (headers_of sc) = Ok (denote sc)
+  else ~ (forall sc, wf_schema_full sc = true -> infer (headers_of sc) = Ok (denote sc)).
+Proof. exact dot_default_decided. Qed.
+Print Assumptions C18_dot_default_decided.
+
+(* both behaviours are mirrored ([infer = infer_at inf_nested_by_field_name]) and both facts are
+   proved on every run, whatever the tree: the candidate repair is correct over the full family, *)
+Theorem C18_by_field_name_headline_full : forall sc,
+  wf_schema_full sc = true -> infer_at true (headers_of sc) = Ok (denote sc).
+Proof. exact headline_full_by_name. Qed.
+Print Assumptions C18_by_field_name_headline_full.
+
+(* the whole-header test is not, *)
+Theorem C18_whole_header_headline_full_refuted :
+  ~ (forall sc, wf_schema_full sc = true -> infer_at false (headers_of sc) = Ok (denote sc)).
+Proof. exact headline_full_whole_header_refuted. Qed.
+Print Assumptions C18_whole_header_headline_full_refuted.
+
+(* and on the family of (1) the two behaviours agree with the denoted model *)
+Theorem C18_infer_at_headers_of : forall bn sc,
+  wf_schema sc = true -> infer_at bn (headers_of sc) = Ok (denote sc).
+Proof. exact infer_at_headers_of. Qed.
+Print Assumptions C18_infer_at_headers_of.
+
+Example C18_dot_default_witness : wf_schema_full ex_dot = true /\ wf_schema ex_dot = false.
+Proof. exact ex_dot_full. Qed.
+Print Assumptions C18_dot_default_witness.
+
+Example C18_dot_default_witness_by_field_name :
+  infer_at true (headers_of ex_dot)
+  = Ok (TRec [(nm 120, (TFloat, VFloat [49; 46; 53]%N))], VRec [(nm 120, VFloat [49; 46; 53]%N)]).
+Proof. exact ex_dot_by_name. Qed.
+Print Assumptions C18_dot_default_witness_by_field_name.
+
+Example C18_dot_default_witness_whole_header :
+  exists t d, infer_at false (headers_of ex_dot)
+              = Ok (TRec [([120; 58; 102; 108; 111; 97; 116; 61; 49]%N, (TList t, d))],
+                    VRec [([120; 58; 102; 108; 111; 97; 116; 61; 49]%N, d)]).     (* a field "x:float=1" *)
+Proof. exact ex_dot_whole_header. Qed.
+Print Assumptions C18_dot_default_witness_whole_header.
